@@ -67,7 +67,7 @@ Section Gate.
     else
       match run head max_buffer_size (run_fuel (g_read_buf g)) (g_codec g) (g_read_buf g) (g_msgs g) with
       | ONeedMore c' rest ms =>
-          mk_gate false rest c' (g_queued g + (lenN ms - lenN (g_msgs g))) ms (g_rejected g)
+          mk_gate (g_read_disconnect g) rest c' (g_queued g + (lenN ms - lenN (g_msgs g))) ms (g_rejected g)
       | OError e ms =>
           (* Err(ParseError::Io) => client_disconnected(); Err(TooLarge) => 431; Err(_) => 400:
              every arm inserts Flags::READ_DISCONNECT *)
